@@ -632,6 +632,19 @@ def r20_2(ctx, rr):
         flds = [x for x in walk(e) if x.get("k") == "Field"]
         return names == ["clone", "into_iter"] and len(flds) == 1 and flds[0]["name"] == "into_iter" and flds[0]["e"].get("k") == "Path" and flds[0]["e"].get("name") == "self"
     ok = len(asg) == 1 and _pristine(asg[0]["r"])
+    if not ok and len(asg) == 1:
+        # the clone bound to a local first: `let fresh = self.into_iter.clone(); self.iter = fresh.into_iter();`
+        from r_guards import simple_env
+        t = simple_env(F, b).term(asg[0]["r"])
+
+        def unwrap(t, names):
+            while t[0] == "call" and t[1].split("::")[-1] in names and len(t[2]) == 1:
+                t = t[2][0]
+            return t
+        inner = unwrap(t, ("into_iter",))
+        # (the termizer sees through `clone`; consuming the field itself would not compile, since self is returned)
+        inner = unwrap(inner, ("clone",))
+        ok = inner is not t and inner == ("field", slf, "into_iter") and any(x.get("k") == "MethodCall" and x["name"] == "clone" for x in walk(b.body))
     rr.check(ok, "FromIntoIterator::rewind:from-pristine-clone", "FromIntoIterator::rewind must re-create `iter` from a clone of the untouched `into_iter`", b.span)
     fb = F.one(r"^<utils::lenders::FromIntoIterator<I> as std::convert::From<I>>::from$")
     from r_ef import struct_literal_fields
